@@ -127,3 +127,10 @@ def run(ctx):
              "expectation; every instruction of those sessions and of generic generated sessions (which place call/cc "
              "at operand and tail positions and store k in globals for re-entry from later forms) replayed through the "
              "Lean model of run_one; non-trivial = continuation capture/invocation steps, forms containing call/cc")
+
+
+# ROUND 8: the Ext laws are theorems for a table of real builtins (lib/props/procinv_util.py, Lemmas/ListExtC05.lean)
+import procinv_util as _pv8
+MODULE = _pv8.listext_module("C05")
+THEOREMS = THEOREMS + [t for t in _pv8.LISTEXT_LAWS + _pv8.LISTEXT["C05"] if t not in THEOREMS]
+META["note"] = META["note"] + _pv8.LISTEXT_NOTE
